@@ -1,16 +1,16 @@
 #!/bin/bash
 # Detection robustness: every seeded change against its property's quick tier under several VERIF_SEED values.
 # usage: tools/robust.sh "<seeds>"      (writes nothing into seeded/)
-cd /verif
+cd "$(dirname "$0")/.."; V=$(pwd)
 for seed in ${1:-1 2}; do
-  for s in $(ls seeded); do
+  for s in $(ls seeded | grep -v json); do
     prop=${s%%-*}
     d=$(mktemp -d /tmp/gsrc-XXXXXX); cp -r /repo/src $d/src
-    patch -p1 -s -d $d -i /verif/seeded/$s/patch.diff || { echo "seed=$seed $s PATCH-FAILED"; rm -rf $d; continue; }
+    patch -p1 -s -d $d -i $V/seeded/$s/patch.diff || { echo "seed=$seed $s PATCH-FAILED"; rm -rf $d; continue; }
     out=$(GALLIA_SRC=$d/src VERIF_SEED=$seed timeout 1800 /venv/bin/python -m simcheck $prop --tier quick 2>&1); rc=$?
     rm -rf $d
     case $rc in 1) v=DETECTED;; 0) v=MISSED;; *) v="ERROR($rc)";; esac
     echo "seed=$seed $s $v $(echo "$out" | grep -m1 signature | cut -c1-110)"
   done
 done
-find /verif/replays -name '*.json' ! -name 'known-*' -delete
+find $V/replays -name '*.json' ! -name 'known-*' -delete
